@@ -18,7 +18,7 @@
 """
 The classic Gaussian mechanism in differential privacy, and its derivatives.
 """
-from math import erf
+from math import erfc
 from numbers import Real, Integral
 
 import numpy as np
@@ -165,7 +165,7 @@ class GaussianAnalytic(Gaussian):
         delta = self.delta
 
         def phi(val):
-            return (1 + erf(val / np.sqrt(2))) / 2
+            return erfc(-val / np.sqrt(2)) / 2  # the normal cdf, without the cancellation of 1 + erf for negative val
 
         def b_plus(val):
             return phi(np.sqrt(epsilon * val)) - np.exp(epsilon) * phi(- np.sqrt(epsilon * (val + 2))) - delta
